@@ -305,6 +305,21 @@ var errInjected = errors.New("injected callback error")
 type Engine struct {
 	Cur func() *OpRec // recorder of the operation the running task is in
 	yield func(string)
+	Owned []Owned // harness-side handles on values handed to the schema (defaults, OneOf lists, ...)
+}
+
+// Owned is a value the schema was given at construction. Slices share their
+// backing array with what the schema holds, so a write through the schema is
+// visible here.
+type Owned struct {
+	What string
+	Node int
+	V    any
+}
+
+func (e *Engine) own(what string, n *Node, v any) any {
+	e.Owned = append(e.Owned, Owned{what, n.ID, v})
+	return v
 }
 
 func derefAll(x any) any {
@@ -332,7 +347,7 @@ func CustomPass(t TestSpec, val any) bool {
 	if t.Mod <= 0 {
 		return true
 	}
-	return int64(fnv64(addrRx.ReplaceAllString(Canon(derefAll(val)), "0xADDR"))%uint64(t.Mod)) != t.Rem
+	return int64(fnv64(scrubAddr(Canon(derefAll(val))))%uint64(t.Mod)) != t.Rem
 }
 
 func (e *Engine) record(n *Node, kind string, idx int, arg any, ctx z.Ctx, wantAddr bool) *OpRec {
@@ -343,7 +358,7 @@ func (e *Engine) record(n *Node, kind string, idx int, arg any, ctx z.Ctx, wantA
 	if rec == nil {
 		return nil
 	}
-	c := Call{Node: n.ID, Kind: kind, Idx: idx, ArgT: fmt.Sprintf("%T", arg), Arg: addrRx.ReplaceAllString(Canon(derefAll(arg)), "0xADDR"), Addr: -1}
+	c := Call{Node: n.ID, Kind: kind, Idx: idx, ArgT: fmt.Sprintf("%T", arg), Arg: scrubAddr(Canon(derefAll(arg))), Addr: -1}
 	if wantAddr {
 		c.Addr = 0
 		rv := reflect.ValueOf(arg)
@@ -589,9 +604,9 @@ func (e *Engine) Build(n *Node) z.ZogSchema {
 				}
 			case "oneof":
 				if t.Not {
-					ns.OneOf(valStrings(t.L), o...)
+					ns.OneOf(e.own("oneof", n, valStrings(t.L)).([]string), o...)
 				} else {
-					s.OneOf(valStrings(t.L), o...)
+					s.OneOf(e.own("oneof", n, valStrings(t.L)).([]string), o...)
 				}
 			case "contains":
 				if t.Not {
@@ -688,7 +703,7 @@ func (e *Engine) Build(n *Node) z.ZogSchema {
 			case "lte":
 				s.LTE(int(t.N), o...)
 			case "oneof":
-				s.OneOf(valInts(t.L), o...)
+				s.OneOf(e.own("oneof", n, valInts(t.L)).([]int), o...)
 			default:
 				panic("harness: bad int test " + t.T)
 			}
@@ -724,7 +739,7 @@ func (e *Engine) Build(n *Node) z.ZogSchema {
 			case "lte":
 				s.LTE(t.F, o...)
 			case "oneof":
-				s.OneOf(valFloats(t.L), o...)
+				s.OneOf(e.own("oneof", n, valFloats(t.L)).([]float64), o...)
 			default:
 				panic("harness: bad float test " + t.T)
 			}
@@ -798,7 +813,7 @@ func (e *Engine) Build(n *Node) z.ZogSchema {
 			s.Required()
 		}
 		if n.Def != nil {
-			s.Default(Populate(TypeOf(n), *n.Def).Interface())
+			s.Default(e.own("default", n, Populate(TypeOf(n), *n.Def).Interface()))
 		}
 		for i, t := range n.Tests {
 			o := testOpts(t)
@@ -812,7 +827,7 @@ func (e *Engine) Build(n *Node) z.ZogSchema {
 			case "len":
 				s.Len(int(t.N), o...)
 			case "contains":
-				s.Contains(Populate(TypeOf(n.Elem), t.L[0]).Interface(), o...)
+				s.Contains(e.own("contains", n, Populate(TypeOf(n.Elem), t.L[0]).Interface()), o...)
 			default:
 				panic("harness: bad slice test " + t.T)
 			}
